@@ -4635,3 +4635,41 @@ impl IceSocketWrapper {
         }
     }
 }
+
+// ---------------------------------------------------------------------------------------------
+// Verification hooks (compiled only with `--cfg rustrtc_verif`): accessors over private
+// constructors / priority functions, used by the external verification harness (C16).
+#[cfg(rustrtc_verif)]
+impl IceCandidate {
+    pub fn verif_priority_for(typ: IceCandidateType, component: u16) -> u32 {
+        Self::priority_for(typ, component)
+    }
+    pub fn verif_priority_for_tcp(typ: IceCandidateType, component: u16, tcp_type: TcpType) -> u32 {
+        Self::priority_for_tcp(typ, component, tcp_type)
+    }
+    pub fn verif_server_reflexive(base: SocketAddr, mapped: SocketAddr, component: u16) -> Self {
+        Self::server_reflexive(base, mapped, component)
+    }
+    pub fn verif_relay(mapped: SocketAddr, component: u16, transport: &str) -> Self {
+        Self::relay(mapped, component, transport)
+    }
+}
+
+#[cfg(rustrtc_verif)]
+impl IceServerUri {
+    /// (kind is "stun"/"turn", host, port, transport "udp"/"tcp") or the error text
+    pub fn verif_parse(input: &str) -> std::result::Result<(String, String, u16, String), String> {
+        match Self::parse(input) {
+            Ok(u) => Ok((
+                match u.kind {
+                    IceUriKind::Stun => "stun".to_string(),
+                    IceUriKind::Turn => "turn".to_string(),
+                },
+                u.host,
+                u.port,
+                u.transport.as_str().to_string(),
+            )),
+            Err(e) => Err(format!("{e:#}")),
+        }
+    }
+}
